@@ -15,6 +15,10 @@ import sys
 
 GUARD = "UDEM_LBIT_SUPERREC2_VERIF"
 SRC = os.environ.get("VERIF_REPO_SRC", "/repo/src")
+# Configuration dimension "interpreter run with -O": the package is compiled at this optimisation
+# level (1 strips assert statements, as `python -O` does).  Decided by VERIF_SEED in run_check.py
+# (one seed in five), or by VERIF_PYOPT, or by the replay file.
+PYOPT = int(os.environ.get("VERIF_PYOPT") or 0)
 
 
 # --------------------------------------------------------------------------------------
@@ -330,7 +334,8 @@ class _Loader(importlib.abc.SourceLoader):
         ast.fix_missing_locations(tree)
         REWRITES[os.path.relpath(path, SRC)] = rewriter.sites
         SOURCE_DIGEST.update(path.encode() + b"\0" + data)
-        return compile(tree, path, "exec", dont_inherit=True, optimize=_optimize)
+        return compile(tree, path, "exec", dont_inherit=True,
+                       optimize=PYOPT if PYOPT else _optimize)
 
     def exec_module(self, module):
         module.__dict__["__sim_set__"] = SimSet
